@@ -39,7 +39,7 @@ type response struct {
 func childMain() {
 	// Legitimate recursion here is a few dozen frames deep; a small limit turns runaway
 	// recursion into a fast, small crash instead of a 1 GB one.
-	debug.SetMaxStack(32 << 20)
+	debug.SetMaxStack(4 << 20)
 	in := bufio.NewReaderSize(os.Stdin, 1<<20)
 	out := bufio.NewWriter(os.Stdout)
 	for {
@@ -73,7 +73,7 @@ type server struct {
 
 func startServer(id int) (*server, error) {
 	cmd := exec.Command(os.Args[0])
-	cmd.Env = append(os.Environ(), "VERIF_C16_CHILD=1", "GOTRACEBACK=single")
+	cmd.Env = append(os.Environ(), "VERIF_C16_CHILD=1", "GOTRACEBACK=single", "GOMAXPROCS=4")
 	stdin, err := cmd.StdinPipe()
 	if err != nil {
 		return nil, err
@@ -159,13 +159,18 @@ func classifyDeath(stderr string, timedOut bool) death {
 	case strings.Contains(stderr, "panic:"):
 		kind = "panic"
 	}
-	// innermost frame inside the ontology package (the recursion site for an overflow)
+	// the ontology function that occurs most often in the dying goroutine's stack (for a
+	// runaway recursion: the recursion site, whatever leaf happened to hit the limit)
 	fn := ""
+	freq := map[string]int{}
 	for _, m := range reFrame.FindAllStringSubmatch(stderr, -1) {
 		f := m[1]
-		if strings.Contains(f, "/ontology.") {
-			fn = f[strings.LastIndex(f, "/ontology.")+len("/ontology."):]
-			break
+		if i := strings.LastIndex(f, "/ontology."); i >= 0 {
+			name := f[i+len("/ontology."):]
+			freq[name]++
+			if freq[name] > freq[fn] || fn == "" {
+				fn = name
+			}
 		}
 	}
 	if fn == "" {
